@@ -276,6 +276,7 @@ def parse(sql):
     if head == 'CREATE':
         p.i += 1
         if p.accept('VIRTUAL', 'TABLE'):
+            ine = p.accept('IF', 'NOT', 'EXISTS')
             name = p.ident()
             p.eat('USING')
             if p.ident().lower() != 'rtree':
@@ -286,8 +287,9 @@ def parse(sql):
                 cols.append(p.ident())
             p.eat(')')
             p.done()
-            return ('create', name, cols, 'rtree', cols[0])
+            return ('create', name, cols, 'rtree', cols[0], bool(ine))
         if p.accept('TABLE'):
+            ine = p.accept('IF', 'NOT', 'EXISTS')
             name = p.ident()
             p.eat('(')
             cols, pk = [], None
@@ -303,7 +305,7 @@ def parse(sql):
                 break
             p.eat(')')
             p.done()
-            return ('create', name, cols, 'table', pk)
+            return ('create', name, cols, 'table', pk, bool(ine))
         if p.accept('INDEX'):
             return ('noop',)
         raise SqlShimError(f"unsupported CREATE: {sql!r}")
@@ -559,7 +561,11 @@ class Cursor:
                     if name.lower() == st[2].lower():
                         del self.con.tables[name]
         elif k == 'create':
-            self.con.tables[st[1]] = Table(st[1], st[2], st[3], st[4])
+            exists = any(n.lower() == st[1].lower() for n in self.con.tables)
+            if exists and not (len(st) > 5 and st[5]):
+                raise OperationalError(f"table {st[1]} already exists")
+            if not exists:
+                self.con.tables[st[1]] = Table(st[1], st[2], st[3], st[4])
         elif k == 'delete':
             self.table(st[1]).rows = []
         elif k == 'insert':
